@@ -6,6 +6,9 @@ import (
 	"fmt"
 )
 
+// soakPct: percentage of runs of every family that are long ("soak") runs.
+const soakPct = 3
+
 type mixOpts struct {
 	family string
 	world  worldOpts
@@ -32,6 +35,7 @@ type mixOpts struct {
 	autoFinishPct int // after a send, immediately run the task to completion (serial use)
 	callbackAfter int // percent: after an sso send+finish, complete and call back the new session
 	rogueSPPct    int
+	oddHostPct    int // request Host / Forwarded values that are not valid URL authorities (only where nothing but panics is judged)
 }
 
 func (g G) drawHost(label string, c *IDPCfg, i int, m *MsgSpec) {
@@ -105,6 +109,14 @@ func (g G) planMix(prop string, o *mixOpts) *Plan {
 		o.minSteps, o.maxSteps = 3, 40
 	}
 	n := g.rng("nsteps", o.minSteps, o.maxSteps)
+	// soak runs: a few executions are an order of magnitude longer than the rest, so that state which only builds up over
+	// many requests on one provider instance (caches that evict, pools, counters) is reached at all
+	sessRange := 8
+	if g.chance("soak", soakPct) {
+		n = g.rng("nsoak", 120, 400)
+		sessRange = 64
+		p.Family += "+soak"
+	}
 	nsp := len(p.World.SPs)
 	weights := []int{o.wSSO, o.wCallback, o.wSLO, o.wAttrQ, o.wMeta, o.wCert, o.wReady, o.wHealthz, o.wRaw,
 		o.wResume, o.wFinish, o.wComplete, o.wUncomplete, o.wAdvance, o.wRestart, o.wDelReq, o.wRotate, o.wRotateMeta, o.wRereg, o.wDelSP, o.wPair, o.wUnhealthy}
@@ -117,7 +129,7 @@ func (g G) planMix(prop string, o *mixOpts) *Plan {
 		case 0:
 			m = g.drawSSO(lab+".sso", &p.World, g.intn(lab+".sp", nsp))
 		case 1:
-			m = &MsgSpec{Kind: "callback", Session: g.intn(lab+".sess", 8),
+			m = &MsgSpec{Kind: "callback", Session: g.intn(lab+".sess", sessRange),
 				IDMode:  g.pick(lab+".idmode", "session", "session", "session", "session", "session", "unknown", "empty", "literal"),
 				IDPlace: g.pick(lab+".place", "query", "query", "form", "both", "form-other-query")}
 			if m.IDMode == "literal" {
@@ -143,6 +155,18 @@ func (g G) planMix(prop string, o *mixOpts) *Plan {
 			if o.hostVariety {
 				g.drawHost(lab+".host", &p.World.IDP, g.intn(lab+".hosti", 3), m)
 			}
+			if g.chance(lab+".oddhost", o.oddHostPct) {
+				// every value passes net/http's Host header validation, few are valid authorities
+				odd := g.pick(lab+".oddhostv", "idp.example.com:abc", "[::1", "idp.example.com%zz", "[::1]:99999", "a:b:c", "%", "idp.example.com:", ":443", "[", "]", "idp..example", "xn--", "a@b", "user:pw@idp.example", "idp.example.com:80:80", "[fe80::1%25eth0]", "-", "")
+				switch g.intn(lab+".oddhostw", 3) {
+				case 0:
+					m.Host = odd
+				case 1:
+					m.Forwarded = "for=192.0.2.1;host=" + odd + ";proto=https"
+				case 2:
+					m.Forwarded = `host="` + odd + `";proto=` + g.pick(lab+".oddproto", "https", "http", "", "ftp", "h ttp")
+				}
+			}
 			proto := m.Kind == "sso" || m.Kind == "slo" || m.Kind == "attrq"
 			if proto {
 				if g.chance(lab+".rogue", o.rogueSPPct) {
@@ -166,7 +190,7 @@ func (g G) planMix(prop string, o *mixOpts) *Plan {
 			}
 			if fp > 0 && g.chance(lab+".fa", fp) {
 				m.FaultAt = g.rng(lab+".fan", 1, 4)
-				m.FaultKind = g.pick(lab+".fak", "err", "err", "nil_record", "key_without_cert", "cert_without_key", "empty_cert", "partial_err")
+				m.FaultKind = g.pick(lab+".fak", "err", "err", "nil_record", "key_without_cert", "cert_without_key", "empty_cert", "partial_err", "err_canceled", "err_notfound", "err_deadline", "err_eof")
 			}
 			if g.chance(lab+".wf", o.writeFaultPct) {
 				m.WriterFault, m.WriterOff = true, g.intn(lab+".wfo", 2000)
@@ -201,21 +225,21 @@ func (g G) planMix(prop string, o *mixOpts) *Plan {
 		case 10:
 			p.Steps = append(p.Steps, Step{K: "finish", Pick: g.intn(lab+".pick", 8)})
 		case 11:
-			p.Steps = append(p.Steps, Step{K: "mutate", Mut: "complete", A: g.intn(lab+".sess", 8), B: g.intn(lab+".user", 4)})
+			p.Steps = append(p.Steps, Step{K: "mutate", Mut: "complete", A: g.intn(lab+".sess", sessRange), B: g.intn(lab+".user", 4)})
 		case 12:
-			p.Steps = append(p.Steps, Step{K: "mutate", Mut: "uncomplete", A: g.intn(lab+".sess", 8)})
+			p.Steps = append(p.Steps, Step{K: "mutate", Mut: "uncomplete", A: g.intn(lab+".sess", sessRange)})
 		case 13:
 			p.Steps = append(p.Steps, Step{K: "advance", Ns: g.drawAdvance(lab+".adv", nil)})
 		case 14:
 			p.Steps = append(p.Steps, Step{K: "restart", Replica: g.intn(lab+".rep", 3)})
 		case 15:
-			p.Steps = append(p.Steps, Step{K: "mutate", Mut: "deleteRequest", A: g.intn(lab+".sess", 8)})
+			p.Steps = append(p.Steps, Step{K: "mutate", Mut: "deleteRequest", A: g.intn(lab+".sess", sessRange)})
 		case 16:
 			p.Steps = append(p.Steps, Step{K: "mutate", Mut: "rotateKey"})
 		case 17:
 			p.Steps = append(p.Steps, Step{K: "mutate", Mut: "rotateMetaKey"})
 		case 18:
-			p.Steps = append(p.Steps, Step{K: "mutate", Mut: "reregister", A: g.intn(lab+".sp", 4), B: g.intn(lab+".how", 5)})
+			p.Steps = append(p.Steps, Step{K: "mutate", Mut: "reregister", A: g.intn(lab+".sp", 4), B: g.intn(lab+".how", 7)})
 		case 19:
 			p.Steps = append(p.Steps, Step{K: "mutate", Mut: "deleteSP", A: g.intn(lab+".sp", 4)})
 		case 20:
